@@ -42,6 +42,8 @@ var (
 	// addresses by name whether or not the fixture has them
 	c08allDirs   []string
 	c08extraBrds []*c08Board // boards of the cache beyond c08boards (restored after a write, never addressed)
+	// op 9 (c08cfg.go): the target board is chosen by name, the read-only system boards by the site configuration
+	c08tbOverride *c08Board
 )
 
 func (w *world) boardDir(name string) string {
@@ -262,6 +264,12 @@ func c08Run(args [][]string) []string {
 	if op == 8 {
 		return c08RunOwner(args)
 	}
+	if op == 9 {
+		return c08RunConfigured(args)
+	}
+	if op == 10 {
+		return c08RunAsUID(args)
+	}
 	if op < 1 || op > 6 || (len(args) != 5 && len(args) != 8) {
 		return []string{"9"}
 	}
@@ -277,6 +285,9 @@ func c08Run(args [][]string) []string {
 		return []string{"9"}
 	}
 	tb := c08boards[bsel]
+	if c08tbOverride != nil {
+		tb = c08tbOverride
+	}
 	note := c08boards[3]
 	now := types.NowTS()
 
@@ -319,7 +330,8 @@ func c08Run(args [][]string) []string {
 		}
 	})
 	plantTag := func(name string, ban int64) {
-		tag := filepath.Join(w.env.home, "home", "C", "CodingMan", "banned", "b_"+name)
+		me := types.CstrToString(w.userID[:])
+		tag := filepath.Join(w.env.home, "home", me[:1], me, "banned", "b_"+name)
 		switch ban {
 		case 0:
 			os.Remove(tag)
